@@ -58,6 +58,16 @@ pub fn hash_u64(bytes: &[u8]) -> u64 {
     let h: u64 = next_val("u64").parse().unwrap();
     HASHES.lock().unwrap().push((bytes.to_vec(), h)); h
 }
+/// ends the current (modelled) thread: unwinds to the enclosing `run_until_end`
+pub struct EndThread;
+pub fn end_thread() -> ! { std::panic::resume_unwind(Box::new(EndThread)) }
+/// runs `f`; None when it ended through `end_thread` (a thread that would block for ever)
+pub fn run_until_end<T, F: FnOnce() -> T>(f: F) -> Option<T> {
+    match std::panic::catch_unwind(std::panic::AssertUnwindSafe(f)) {
+        Ok(v) => Some(v),
+        Err(p) => { if p.is::<EndThread>() { None } else { std::panic::resume_unwind(p) } }
+    }
+}
 pub fn any_u128(_name: &str) -> u128 { next_val("u128").parse().unwrap() }
 pub fn any_usize(_name: &str) -> usize { next_val("usize").parse().unwrap() }
 pub fn any_bool(_name: &str) -> bool { next_val("bool") == "true" }
